@@ -7,7 +7,7 @@ from .seqreplay import replay_history
 
 class C03Spec(ModelSpec):
     prop = "C03"
-    pids = ("p", "q")
+    pids = ("p", "q", "r")  # three pids: a binding can be shared by two others while the third is re-bound
     api_probe = True
 
     def __init__(self, tier):
@@ -19,7 +19,8 @@ class C03Spec(ModelSpec):
                     ("tag", pid, "A"), ("tag", pid, "B"), ("tag", pid, "N"), ("delete", pid)]
         ops += [("store_nopid", "A"), ("store_nopid", "B"),
                 ("dii", "A", "badsize"), ("dii", "B", "badck"), ("dii", "A", "ok"), ("dii", "B", "ok"),
-                ("store", "p", "A", "ok:md5+size"), ("store", "q", "B", "badck:sha1")]
+                ("store", "p", "A", "ok:md5+size"), ("store", "q", "B", "badck:sha1"), ("store", "r", "A", "badsize"),
+                ("store_meta", "p", None, "v1"), ("delete_meta", "p", None)]
         self.ops = ops
 
     def extra_checks(self, m0, m1, op, out, t0, t1, a, store):
@@ -39,7 +40,7 @@ class C03Spec(ModelSpec):
 def main(tier):
     rep = common.Report("C03", tier, "model_checking")
     run_spec(rep, C03Spec(tier), "closure", time_cap=120 if tier == "quick" else 3000)
-    rep.assumptions += ["alphabet: pids p/q, contents A/B, cids cA/cB/never-stored; rejected and accepted forms",
+    rep.assumptions += ["alphabet: pids p/q/r, contents A/B, cids cA/cB/never-stored; rejected and accepted forms",
                         "every transition runs the real method on a fresh FileHashStore over the materialised tree"]
     return rep.finish(rep._samples)
 
